@@ -166,6 +166,11 @@ def node_variants(n, rng):
         if not any(kk == "zz_new" for kk, _, _ in keys):
             upd("dict.key_added", keys=list(keys) + [("zz_new", mk("int"), False)])
         upd("dict.relaxed_toggled", relaxed=None if n.get("relaxed") else True)
+        if n.get("relaxed") and len(keys) >= 1:
+            # the same declaration with the ...: ... entry written elsewhere: equal, and must validate identically
+            pos = n.get("relaxed_pos")
+            pos = len(keys) if pos is None else pos
+            upd("dict.relaxed_marker_moved", relaxed_pos=(pos + 1) % (len(keys) + 1))
     elif k == "dict":
         upd("dict.declared_empty", keys=[])
     elif k == "any":
@@ -239,6 +244,7 @@ def blind_norm(spec):
         if any_like(n):
             return mk("any")   # every accept-everything schema "equals" a marker through the same fallback
         m = dict(n)
+        m.pop("relaxed_pos", None)   # where ...: ... is written is not part of the meaning (dict == ignores key order)
         if m["k"] == "list" and m.get("form") == "typed" and any_like(m["type"]):
             m.pop("type")
             m["form"] = "bare"
@@ -266,8 +272,23 @@ def only_ellipsis_vs_any(a, b):
     """The two specs differ, but only by marker-vs-accept-everything-schema differences (finding F13):
     `...` vs schema.any in an element list and/or an absent list type vs a type that accepts everything."""
     from ..decode import normalise, spec_eq
-    if spec_eq(normalise(a), normalise(b)):
-        return False
+
+    def strip(n):
+        if n == ELL:
+            return n
+        m = {k: v for k, v in n.items() if k != "relaxed_pos"}
+        for f in ("type", "target"):
+            if m.get(f) is not None:
+                m[f] = strip(m[f])
+        if m.get("elems") is not None:
+            m["elems"] = [strip(e) for e in m["elems"]]
+        if m.get("types") is not None:
+            m["types"] = [strip(t) for t in m["types"]]
+        if m.get("keys") is not None:
+            m["keys"] = [(k, strip(sub), o) for k, sub, o in m["keys"]]
+        return m
+    if spec_eq(normalise(strip(a)), normalise(strip(b))):
+        return False      # same declaration (possibly with ...: ... written elsewhere): not the blind spot
     return same_modulo_blindspot(a, b)
 
 
